@@ -110,6 +110,7 @@ class ProtoModel:
                 fields["$which:" + oname] = None
         fields["$parent"] = parent
         fields["$sym"] = sym
+        fields["$written"] = False      # ghost: has any field of this message object been written since it was handed out?
         st, r = eng.alloc(st, "msg", name, **fields)
         if sym:
             # children of non-recursive types are materialised eagerly so that contract clauses can read them
@@ -325,6 +326,7 @@ class ProtoModel:
 
     def touch(self, st: State, r: Ref) -> State:
         """A write inside message r makes r present in its parent (and so on upwards)."""
+        st = st.heap_set(r, "$written", True)
         p = st.obj(r).get("$parent")
         if p is None:
             return st
@@ -345,6 +347,35 @@ class ProtoModel:
                 st, c = self.deep_copy(eng, st, v, parent=Tup((r, f["name"])))
                 st = st.heap_set(r, f["name"], c)
         return st, r
+
+    def havoc(self, eng: Any, st: State, r: Ref, base: str) -> State:
+        """callee may have written anything into message r: every field, oneof tag and presence bit becomes symbolic"""
+        o = st.obj(r)
+        name = o.cls
+        for f in self.msgs[name]["fields"]:
+            n = f["name"]
+            if f["repeated"]:
+                v = o.get(n)
+                if isinstance(v, Ref) and st.obj(v).kind == "list":
+                    seg = Seg(V.fresh_of_sort(f"{base}.{n}", V.SegSort), n)
+                    st = st.assume(V.seg_len(seg.const) >= 0).heap_set(v, "items", (seg,))
+            elif f["type"] == "message":
+                c = o.get(n)
+                if isinstance(c, Ref):
+                    st = self.havoc(eng, st, c, f"{base}.{n}")
+                elif not self.recursive(f["message"]):
+                    st, c, invs = self.new(eng, st, f["message"], sym=True, parent=Tup((r, n)), base=f"{base}.{n}")
+                    st = st.assume(*invs).heap_set(r, n, c)
+                if not f["oneof"]:
+                    st = st.heap_set(r, "$has:" + n, V.fresh_bool(f"{base}.has_{n}"))
+            else:
+                x, inv = self._fresh_scalar(f, f"{base}.{n}")
+                st = st.assume(*inv).heap_set(r, n, x)
+        for oname, members in self.oneofs(name).items():
+            tag = V.fresh_int(f"{base}.which_{oname}")
+            st = st.assume(tag >= 0, tag <= len(members)).heap_set(r, "$which:" + oname, tag)
+        st = st.heap_set(r, "$sym", True).heap_set(r, "$written", V.fresh_bool(f"{base}.written"))
+        return st
 
     # --------------------------------------------------------------- methods
     def call_method(self, eng: Any, st: State, r: Ref, name: str, args: list, kwargs: dict, node: Any, ctx: Any):
